@@ -675,3 +675,14 @@ Example concat_errors_ex :
   concat_run [[ex_arch]; [lit "not a pna file"]] = (None, FinErr InvalidData) /\
   concat_run [[ex_arch]; [firstn 100 ex_arch]] = (Some (write_header 0 ++ ser_entries [ex_e1; ex_e2; ex_e1]), FinErr UnexpectedEof).
 Proof. vm_compute. repeat split. Qed.
+
+(* outside the format (the strict recogniser rejects both inputs), recorded because the command accepts them:
+   chunks that follow the last entry terminator — an entry never closed, or an unknown chunk at archive level —
+   are dropped without an error, and whatever follows AEND is never read; an unknown chunk standing between two
+   entries is kept, as the first chunk of the raw entry that follows it *)
+Example concat_tolerant_reader_ex :
+  let u := mk (T "abCd") [x01] in
+  concat_cmd [[write_header 0 ++ ser_chunks (ex_e1 ++ [u]) ++ finalize ++ lit "anything"]] = Ok (write_raw_archive 0 [ex_e1]) /\
+  wf_archive (write_header 0 ++ ser_chunks (ex_e1 ++ [u]) ++ finalize) = false /\
+  concat_cmd [[write_header 0 ++ ser_chunks (ex_e1 ++ [u] ++ ex_e2) ++ finalize]] = Ok (write_raw_archive 0 [ex_e1; u :: ex_e2]).
+Proof. vm_compute. repeat split. Qed.
